@@ -28,6 +28,7 @@ pub fn alphabet(a: u16) -> Vec<String> {
     v.push("CS,0001".into());
     v.push(format!("RS,{:04X},2", a ^ 0x8000));
     v.push("bus".into());
+    v.push("echo".into());
     v
 }
 
@@ -40,6 +41,8 @@ fn items_tok(items: &[Vec<u8>]) -> String {
 }
 
 pub struct Conv {
+    /// the script as written in the case line (may carry `~` slow-reply marks)
+    pub line_script: Vec<String>,
     pub op: String,
     pub t: usize,
     pub a: u16,
@@ -53,18 +56,32 @@ fn run_conv(op: &str, t: usize, a: u16, items: &[Vec<u8>], itok: &str, script: &
     let toks: Vec<ReplyTok> = script.iter().map(|s| parse_reply(s).expect("reply token")).collect();
     let run = ctrl_run(op, TYPES[t], a, items, &toks).expect("ctrl_run");
     Conv {
+        line_script: script.to_vec(),
         op: op.into(),
         t,
         a,
         items: items.to_vec(),
         items_tok: itok.into(),
-        script: script.to_vec(),
+        // what the oracles read: the replies themselves (how long one took is not part of the protocol; an echo is
+        // the message that was sent at that point)
+        script: script
+            .iter()
+            .enumerate()
+            .map(|(i, s)| {
+                let s = s.trim_start_matches('~');
+                if s == "echo" {
+                    run.trace.get(i).cloned().unwrap_or_else(|| "none".to_string())
+                } else {
+                    s.to_string()
+                }
+            })
+            .collect(),
         run,
     }
 }
 
 fn conv_line(c: &Conv) -> String {
-    format!("ctrl {} {} {:04X} {} | {}", c.op, c.t, c.a, c.items_tok, c.script.join(" ")).trim_end().to_string()
+    format!("ctrl {} {} {:04X} {} | {}", c.op, c.t, c.a, c.items_tok, c.line_script.join(" ")).trim_end().to_string()
 }
 
 // ---------------------------------------------------------------------------------------------
@@ -455,7 +472,7 @@ impl<'o> Explore<'o> {
                 crate::implside::BUS_ERR_KIND.with(|k| k.set(0));
                 self.out.stat("ctrl.bus-error-kind-rerun");
                 if c2.run.trace != c.run.trace || c2.run.outcome != c.run.outcome {
-                    self.out.fail(i, format!("{} a bus error of concrete type #{} (1,2 = io::Error, 3 = FrameError::BadChecksum, 4 = InvalidFrame, 5 = FrameDataMismatch) changed the conversation: outcome {} instead of {}, {} messages instead of {}", self.prop, kind, c2.run.outcome, c.run.outcome, c2.run.trace.len(), c.run.trace.len()));
+                    self.out.fail(i, format!("{} a bus error of concrete type #{} (1,2 = io::Error, 3 = FrameError::BadChecksum, 4 = InvalidFrame, 5 = FrameDataMismatch, 6 = SignError::UnexpectedResponse, 7 = SignError::Bus) changed the conversation: outcome {} instead of {}, {} messages instead of {}", self.prop, kind, c2.run.outcome, c.run.outcome, c2.run.trace.len(), c.run.trace.len()));
                     break;
                 }
             }
@@ -471,6 +488,7 @@ impl<'o> Explore<'o> {
         let root = run_conv(op, t, a, items, &itok, &[]);
         self.visit(&root);
         let mut runs = 0usize;
+        let mut oks: Vec<Vec<String>> = vec![];
         while let Some(script) = frontier.pop() {
             if script.len() >= self.max_len {
                 continue;
@@ -485,10 +503,37 @@ impl<'o> Explore<'o> {
                 s2.push(sym.clone());
                 let c = run_conv(op, t, a, items, &itok, &s2);
                 self.visit(&c);
+                if c.run.outcome.starts_with("ok") && oks.len() < 60 && c.run.consumed == s2.len() {
+                    oks.push(s2.clone());
+                }
                 // (a run that sent more messages than it had replies was starved, whatever it returned)
                 if (c.run.outcome == "starved" || c.run.msgs.len() > s2.len()) && recurse(&s2) {
                     frontier.push(s2);
                 }
+            }
+        }
+        self.twins(op, t, a, items, &itok, &oks);
+    }
+
+    /// Every successful conversation found above, with each of the sign's own reports / acknowledgements replaced —
+    /// one at a time — by an `Unknown` message wrapping the very frame that report would travel in (what a bus that
+    /// does not decode replies hands back): an `Unknown` reply is an unrelated message, whatever bytes it carries.
+    fn twins(&mut self, op: &str, t: usize, a: u16, items: &[Vec<u8>], itok: &str, oks: &[Vec<String>]) {
+        for s in oks {
+            for (k, tok) in s.iter().enumerate() {
+                let m = match parse_msg(tok) {
+                    Some(m @ (Message::ReportState(..) | Message::AckOperation(..))) => m,
+                    _ => continue,
+                };
+                let (fa, ft, fd) = crate::gens::mk_msg_frame(&m);
+                if fa != a {
+                    continue;
+                }
+                let mut s2 = s.clone();
+                s2[k] = format!("UN,{:04X},{:02X},{}", fa, ft, to_hex(&fd));
+                let c = run_conv(op, t, a, items, itok, &s2);
+                self.out.stat("ctrl.undecoded-twin-reply");
+                self.visit(&c);
             }
         }
     }
@@ -581,6 +626,137 @@ fn explore_all(prop: &str, thorough: bool, rng: &mut Rng, out: &mut Out) {
     }
     many_big_pages(&mut ex, rng);
     long_polls(&mut ex);
+    if prop != "C09" {
+        slow_bus(&mut ex, thorough);
+    }
+    second_operation(&mut ex, thorough, rng);
+}
+
+/// The replies a cooperative (virtual) sign gives to `op`, after `before` has been run on it unrecorded.
+fn happy_script(before: &[&str], op: &str, t: usize, a: u16, items: &[Vec<u8>]) -> Vec<String> {
+    use flipdot_core::SignBus;
+    use flipdot_testing::{VirtualSign, VirtualSignBus};
+    struct Rec {
+        inner: VirtualSignBus<'static>,
+        on: bool,
+        replies: Vec<String>,
+    }
+    impl SignBus for Rec {
+        fn process_message<'a>(&mut self, message: Message<'_>) -> Result<Option<Message<'a>>, Box<dyn std::error::Error + Send + Sync>> {
+            let r = self.inner.process_message(message)?;
+            let r: Option<Message<'static>> = r.map(|m| crate::implside::to_static(&m));
+            if self.on {
+                self.replies.push(match &r {
+                    None => "none".to_string(),
+                    Some(m) => show_msg(m),
+                });
+            }
+            Ok(r)
+        }
+    }
+    let bus = std::rc::Rc::new(std::cell::RefCell::new(Rec {
+        inner: VirtualSignBus::new(vec![VirtualSign::new(Address(a), PageFlipStyle::Manual)]),
+        on: false,
+        replies: vec![],
+    }));
+    let sign = flipdot::Sign::new(bus.clone(), Address(a), TYPES[t]);
+    for b in before {
+        let _ = crate::implside::run_op(&sign, b, TYPES[t], items);
+    }
+    bus.borrow_mut().on = true;
+    let _ = crate::implside::run_op(&sign, op, TYPES[t], items);
+    let r = bus.borrow().replies.clone();
+    r
+}
+
+/// Two operations on ONE controller object: the first is cut short at every point of its conversation by a bus
+/// error, a bus that unwinds, or an unexpected reply; the second then runs on the rest of the script.  A controller
+/// keeps nothing between operations, so the second must be exactly what a new controller would do with those replies.
+fn second_operation(ex: &mut Explore<'_>, thorough: bool, rng: &mut Rng) {
+    let a = 3u16;
+    let t = 2usize;
+    let (w, h) = TYPES[t].dimensions();
+    let items = vec![small_page(1, w, h, rng)];
+    let itok = items_tok(&items);
+    let pairs: Vec<(&str, Vec<&str>, &str, Vec<&str>)> = vec![
+        ("cfg", vec![], "cfg", vec![]),
+        ("snd", vec!["cfg"], "snd", vec!["cfg"]),
+        ("cfg", vec![], "snd", vec!["cfg"]),
+        ("snd", vec!["cfg"], "cfg", vec![]),
+        ("snd", vec!["cfg"], "shw", vec!["cfg", "snd"]),
+        ("shw", vec!["cfg", "snd"], "snd", vec!["cfg"]),
+    ];
+    for (op1, before1, op2, before2) in pairs {
+        let h1 = happy_script(&before1, op1, t, a, &items);
+        let h2 = happy_script(&before2, op2, t, a, &items);
+        for k in 0..=h1.len() {
+            if !thorough && h1.len() > 6 && k > 3 && k + 3 < h1.len() && k % 2 == 1 {
+                continue;
+            }
+            let cuts: Vec<&str> = if k == h1.len() { vec![""] } else { vec!["bus", "panic", "UN,0003,07,-"] };
+            for cut in cuts {
+                let mut s: Vec<String> = h1[..k].to_vec();
+                if !cut.is_empty() {
+                    s.push(cut.to_string());
+                }
+                let n1 = s.len();
+                s.extend(h2.iter().cloned());
+                let line = format!("ctrl2 {} {} {} {:04X} {} | {}", op1, op2, t, a, itok, s.join(" "));
+                let i = ex.out.case(line, true);
+                ex.out.stat("ctrl.second-operation-on-one-object");
+                let got = ex.out.impls[i].clone();
+                let parts: Vec<&str> = got.split(" ;; ").collect();
+                if parts.len() != 2 {
+                    ex.out.fail(i, format!("{} two operations on one controller: run incomplete '{}'", ex.prop, &got[..got.len().min(80)]));
+                    continue;
+                }
+                // the first operation used n1 replies exactly when it was cut at the mark (or ran to its end)
+                let used1 = parts[0].split(" => ").next().map(|t| if t.is_empty() { 0 } else if t.starts_with('#') { t[1..].split(':').next().and_then(|n| n.parse().ok()).unwrap_or(0) } else { t.split(' ').count() }).unwrap_or(0);
+                let rest: Vec<String> = s[used1.min(s.len())..].to_vec();
+                let alone = run_conv(op2, t, a, &items, &itok, &rest);
+                let want = format!("{} => {}", crate::implside::show_trace(&alone.run.trace), alone.run.outcome);
+                if parts[1] != want {
+                    ex.out.fail(i, format!("{} after a first operation ({}) that ended with {} at reply {}, the second ({}) on the SAME controller did '{}' — a new controller does '{}' with the same replies", ex.prop, op1, if cut.is_empty() { "success" } else { cut }, n1, op2, &parts[1][..parts[1].len().min(120)], &want[..want.len().min(120)]));
+                }
+            }
+        }
+    }
+}
+
+/// A transfer attempt that takes more than a second of wall-clock time (one reply is slow), concluded by each state
+/// report: what the controller does with the concluding report must not depend on how long the attempt took.
+fn slow_bus(ex: &mut Explore<'_>, thorough: bool) {
+    let a = 3u16;
+    let p16 = vec![vec![1u8, 0x10, 0, 0, 0x55, 0xAA, 0, 0, 0, 0, 0xFF, 0xFF, 0xFF, 0xFF, 0xFF, 0xFF]];
+    for (op, items, ack, own, reset) in [("cfg", vec![], Operation::ReceiveConfig, State::ConfigInProgress, true), ("snd", p16, Operation::ReceivePixels, State::PixelsInProgress, false)] {
+        let itok = items_tok(&items);
+        for si in 0..13usize {
+            let st = STATES[si];
+            if !thorough && st != own && st != State::ConfigInProgress && st != State::PageLoadInProgress {
+                continue;
+            }
+            for slow_at in [0usize, 1] {
+                if !thorough && slow_at == 1 {
+                    continue;
+                }
+                let mut s: Vec<String> = vec![];
+                if reset {
+                    s.push(rs(a, State::Unconfigured));
+                }
+                s.push(ak(a, ack));
+                s.push(if slow_at == 0 { "~none".into() } else { "none".into() });
+                s.push(if slow_at == 1 { "~none".into() } else { "none".into() });
+                s.push(rs(a, st));
+                // two more polls in case the controller (wrongly) keeps asking, each answered "received"
+                s.push(rs(a, if op == "cfg" { State::ConfigReceived } else { State::PixelsReceived }));
+                s.push("none".into());
+                s.push(rs(a, State::PageLoaded));
+                let c = run_conv(op, 2, a, &items, &itok, &s);
+                ex.out.stat("ctrl.slow-bus");
+                ex.visit(&c);
+            }
+        }
+    }
 }
 
 /// Very long polling phases: a sign that reports "in progress" a great many times and then the target state
@@ -767,12 +943,18 @@ pub fn c08(thorough: bool, rng: &mut Rng, out: &mut Out) {
                 };
                 let other: u16 = a ^ 0x0101;
                 let two = rng.chance(40);
-                let signs = if two {
+                // the neighbour may come first in bus order and may itself have been left anywhere by earlier
+                // traffic (mid-transfer, say): none of that is the target sign's business
+                let other_first = two && rng.chance(50);
+                let signs = if two && other_first {
+                    format!("M,{:04X};{},{:04X}", other, style_tok(style), a)
+                } else if two {
                     format!("{},{:04X};M,{:04X}", style_tok(style), a, other)
                 } else {
                     format!("{},{:04X}", style_tok(style), a)
                 };
-                let prior = prior_walk(rng, a, *t);
+                let mut prior: Vec<Message<'static>> = if two && rng.chance(60) { prior_walk_core(rng, other, *t) } else { vec![] };
+                prior.extend(prior_walk(rng, a, *t));
                 let (w, h) = t.dimensions();
                 let npages = rng.below(4) as usize;
                 let mk = |rng: &mut Rng| -> String {
@@ -813,8 +995,9 @@ pub fn c08(thorough: bool, rng: &mut Rng, out: &mut Out) {
                 }
                 // final: after shut_down the sign is blank
                 let fin: Vec<&str> = parts[1].split(';').collect();
-                if !use_cfn && !fin[0].starts_with("0/-/0/") {
-                    out.fail(i, format!("C08 after shut_down the sign is {}", fin[0]));
+                let ti_fin = if other_first { 1 } else { 0 };
+                if !use_cfn && !fin.get(ti_fin).map(|f| f.starts_with("0/-/0/")).unwrap_or(false) {
+                    out.fail(i, format!("C08 after shut_down the sign is {}", fin.get(ti_fin).copied().unwrap_or("?")));
                 }
             }
         }
@@ -879,6 +1062,35 @@ pub fn c08(thorough: bool, rng: &mut Rng, out: &mut Out) {
                         out.fail(i, format!("C08 after sending the same pages again the run gave '{}', expected it to end in '{}'", out.impls[i], want_tail));
                     }
                 }
+            }
+        }
+    }
+    // page lists at the top of the 16-bit chunk count: exactly 65 535 chunks (only reachable with 3- and 15-chunk
+    // pages: Dash30x7 x 21 845, Front112x16 x 4 369) and the largest lists just below it for other page sizes
+    {
+        let mut lists: Vec<(usize, usize)> = vec![];
+        for (ti, t) in TYPES.iter().enumerate() {
+            let (w, h) = t.dimensions();
+            let chunks = small_page(0, w, h, rng).len() / 16;
+            let n = 65535 / chunks;
+            if 65535 % chunks == 0 {
+                lists.push((ti, n));
+                lists.push((ti, n - 1));
+            } else if thorough {
+                lists.push((ti, n));
+            }
+        }
+        for (ti, n) in lists {
+            let (w, h) = TYPES[ti].dimensions();
+            let sz = small_page(0, w, h, rng).len();
+            let a = 0x0042u16;
+            let at = format!("{:04X},{}", a, ti);
+            let items: Vec<String> = (0..n).map(|k| format!("g:{}:{}", sz, k % 97)).collect();
+            let i = out.case(format!("e2e direct M,{:04X} | cfg,{},- snd,{},{} shw,{},-", a, at, at, items.join(";"), at), true);
+            out.stat("e2e.list-at-the-16-bit-chunk-limit");
+            if !out.impls[i].starts_with("ok ok:manual ok |") || !out.impls[i].contains(&format!("| 9/{}/{}/", ti, n)) {
+                let got = out.impls[i].clone();
+                out.fail(i, format!("C08 a list of {} pages ({} chunks, within the 16-bit chunk count) did not arrive: '{}'", n, n * sz / 16, &got[..got.len().min(100)]));
             }
         }
     }
